@@ -79,7 +79,7 @@ func (fr *Frame) havocModSet(st *State, ms *modSet, locs []modLoc, hint string) 
 	for c := range ms.cells {
 		cells = append(cells, c)
 	}
-	sort.Slice(cells, func(i, j int) bool { return cells[i].Comment < cells[j].Comment })
+	sort.Slice(cells, func(i, j int) bool { return cellIDs[cells[i]] < cellIDs[cells[j]] })
 	for _, c := range cells {
 		old := st.cells[c]
 		var nv Val
@@ -95,7 +95,7 @@ func (fr *Frame) havocModSet(st *State, ms *modSet, locs []modLoc, hint string) 
 	}
 	covered := map[string]bool{}
 	if locs != nil {
-		for _, k := range fr.havocLocs(st, locs, hint) {
+		for _, k := range fr.havocLocsLoop(st, locs, hint) {
 			covered[k] = true
 		}
 	}
@@ -146,7 +146,13 @@ func (fr *Frame) havocLocs(st *State, locs []modLoc, hint string) []string {
 	var touched []string
 	for _, l := range locs {
 		if l.kind == "everything" {
-			for k, srt := range st.sorts.sort {
+			var allKeys []string
+			for k := range st.sorts.sort {
+				allKeys = append(allKeys, k)
+			}
+			sort.Strings(allKeys)
+			for _, k := range allKeys {
+				srt := st.sorts.sort[k]
 				if k == allocKey || k == allocAKey {
 					continue
 				}
@@ -169,6 +175,49 @@ func (fr *Frame) havocLocs(st *State, locs []modLoc, hint string) []string {
 	return touched
 }
 
+// havocLocsLoop havocs, for a loop with a modifies clause, the named locations and everything
+// allocated after loop entry: objects allocated before the loop and not named keep their contents.
+func (fr *Frame) havocLocsLoop(st *State, locs []modLoc, hint string) []string {
+	allowed := map[string][]*Term{}
+	sorts := map[string]Sort{}
+	whole := map[string]bool{}
+	var order []string
+	for _, l := range locs {
+		if l.kind == "everything" {
+			return fr.havocLocs(st, locs, hint)
+		}
+		for _, lk := range l.keys() {
+			if _, seen := sorts[lk.key]; !seen {
+				order = append(order, lk.key)
+			}
+			sorts[lk.key] = lk.sort
+			if l.whole() {
+				whole[lk.key] = true
+			} else {
+				allowed[lk.key] = append(allowed[lk.key], l.ref)
+			}
+		}
+	}
+	for _, k := range order {
+		old := st.H(k, sorts[k])
+		nw := Fresh(hint+"_"+k, sorts[k])
+		if !whole[k] {
+			ak := allocKey
+			if len(k) > 2 && k[:2] == "E:" {
+				ak = allocAKey
+			}
+			r := Bound("r", SInt)
+			pre := []*Term{Select(st.H(ak, allocSort), r)}
+			for _, a := range allowed[k] {
+				pre = append(pre, Neq(r, a))
+			}
+			st.assume(Forall([]*Term{r}, Implies(And(pre...), Eq(Select(nw, r), Select(old, r))), []*Term{Select(nw, r)}))
+		}
+		st.setH(k, nw)
+	}
+	return order
+}
+
 func (fr *Frame) enterLoop(li *loopInfo, st *State) *State {
 	invs, mods, hasMod := fr.loopClauses(li)
 	lname := fmt.Sprintf("loop%d", li.ordinal)
@@ -189,6 +238,7 @@ func (fr *Frame) enterLoop(li *loopInfo, st *State) *State {
 			locs = []modLoc{}
 		}
 	}
+	preLoop := st.clone()
 	fr.havocModSet(st, ms, locs, lname)
 	env := fr.specEnv(st)
 	for _, inv := range invs {
@@ -196,7 +246,10 @@ func (fr *Frame) enterLoop(li *loopInfo, st *State) *State {
 	}
 	li.hasMod = hasMod
 	li.modLocs = locs
-	li.headState = st.clone()
+	li.headState = preLoop // frame reference: the heap before the loop
+	if !fr.dryMode() && fr.top {
+		fr.run.canary(lname+".head", st.pc)
+	}
 	return st
 }
 
